@@ -18,7 +18,7 @@ BUILT = {
     'C10': ('Hypothesis random search over (Hermitian MPO, sector start state, algorithm, sweeps, Lanczos iterations, split tolerance); dense eigvalsh oracle restricted to the charge sector',
             'Exploration: normalisation, state energy = last reported energy, variational bound against the exact sector ground energy, first energy <= start energy, monotone energies (two-site: tol_split = 0), '
             'sector confinement, sparsity, immutability of H, repeated invocation; on one-sided complete manifolds with enough iterations the run must end in an eigenstate and, for irreducible sector blocks, in the ground energy.',
-            'dense reach d^L <= 128 (256 thorough); 1e-9 max(1, ||H||); convergence only where it is a theorem for Krylov-based local solvers', '4 (C10)'),
+            'dense reach d^L <= 128 (256 thorough); 1e-9 max(1, ||H||); convergence only where it is a theorem for Krylov-based local solvers; energy clauses excluded on runs carrying the run-time signature of known finding F5', '4 (C10)'),
     'C11': ('exhaustive enumeration of small charge layouts + Hypothesis random search, dense-algebra oracle',
             'Exploration: every charge layout over {0,1,2} up to 3x3 (4x4 thorough) with four entry styles is enumerated, plus '
             'thousands of generated block-sparse matrices up to 12x12; each is judged by reconstruction, isometry, '
@@ -33,10 +33,10 @@ BUILT = {
             'Exploration: histories of 5..10 (25) steps over a pool of sector-consistent MPS and MPOs of one model family (incl. encoded charge pairs) interleave construction, from_vector, sums, differences, '
             'products, operator application, chains -> graph -> MPO, orthonormalize, compress, merge + split, TDVP and DMRG (both variants, several tolerances) and zero_qnumbers; after every step every pooled '
             'object is checked entry-wise with a harness-side mask (not is_qsparse) and list lengths; outer charges must survive in-place steps on non-zero states; any escaping exception is a violation.',
-            'histories are sampled, length <= 25, bonds capped at 40; steps whose documented precondition fails are skipped and counted', '4 (C02)'),
+            'histories are sampled, length <= 25, bonds capped at 40; steps whose documented precondition fails are skipped and counted; DMRG steps that abort with the run-time signature of known finding F5 are skipped and counted', '4 (C02)'),
     'C03': ('Hypothesis random search over expression trees and operand families; differential oracle = same expression on independent dense forms',
             'Exploration: generated expression trees (depth <= 3) over MPS/MPO sums, differences, products, operator application and identity, binary '
-            'operations with non-zero boundary charges and operator shifts, sparse-vs-dense matrix form, from_vector round trips and merge-after-split; '
+            'operations with non-zero boundary charges and operator shifts, sparse-vs-dense matrix form (also after in-place tensor updates between two conversions), from_vector round trips and merge-after-split; '
             'every result is contracted independently (tensordot) and compared with the expression evaluated on dense operands.',
             'dense reach d^L <= 1024; 1e-11 relative to the product of site-tensor norms', '4 (C03)'),
     'C04': ('Hypothesis random search over path-sharing (bra, operator, ket, density) quadruples; dense-algebra oracle, projection identity for local operators',
@@ -65,7 +65,7 @@ BUILT = {
             'float64, 1e-12 slack around boundary tolerances; numpy.linalg.svd trusted', '4 (C12)'),
     'C13': ('Hypothesis random search over shaped entanglement spectra and threshold tolerances; dense-vector and dense-Schmidt oracle',
             'Exploration: non-zero MPS with constructed charges and bond weights (fast decay, flat, staircase, product) are compressed with tolerances 0, log-uniform and exactly on a cumulative '
-            'Schmidt weight, in both modes; returned norm and scale bounds, normalisation, canonical form, bond monotonicity, the exact error identity (squared), the sqrt(L tol) bound and the kept '
+            'Schmidt weight, in both modes, plus pair-product states with exactly degenerate Schmidt multiplets and tolerances inside a multiplet; returned norm and scale bounds, normalisation, canonical form, bond monotonicity, the exact error identity (squared), the sqrt(L tol) bound and the kept '
             'count at the first truncated bond are judged against dense Schmidt values; from_vector error bound likewise.',
             'dense reach d^L <= 4096; exactly-zero states excluded; 1e-10 window around threshold tolerances', '4 (C13)'),
     'C14': ('Hypothesis random search over matrices with Krylov dimension known by construction; algebraic-relation oracle',
@@ -88,7 +88,7 @@ BUILT = {
             'sampled programs, L <= 6; dense part d^L <= 729', '4 (C17)'),
     'C19': ('Hypothesis-generated operation histories with byte-level snapshots and numpy.shares_memory; direct-call and graph-input parts with deep structural snapshots',
             'Exploration: the C02 histories extended by pure queries and by mutations of fresh results; every pooled object except the documented in-place target must be byte-identical after every step, '
-            'fresh results must not share memory with any pooled array, operands must survive mutation of the result; decompositions / Krylov routines / graph and MPO constructors are called directly and '
+            'fresh results must not share memory with any pooled array, operands (including constructor arguments) must survive mutation of the result; decompositions / Krylov routines / graph and MPO constructors are called directly and '
             'their arguments (arrays, chains, trees, automata, graphs, operator maps) compared with deep snapshots.',
             'aliasing through objects the harness does not hold cannot be seen; raw decomposition outputs are not required to be unaliased (the property speaks about returned MPS / MPO / graphs)', '4 (C19)'),
     'C20': ('Hypothesis over (model, L, seed) with three generic parameter draws; SVD-rank oracle with spectral-gap rule; structural bound for chain lists',
